@@ -752,3 +752,82 @@ Proof.
 Qed.
 
 End Step.
+
+(* ---------------------------------------------------------------- the listing order of the set is irrelevant *)
+Lemma cov_perm w l l2 x : Permutation l l2 -> (cov w l x <-> cov w l2 x).
+Proof.
+  intros P. unfold cov. split; intros (c & Hc & I); exists c; (split; [|exact I]).
+  - eapply Permutation_in; eauto.
+  - eapply Permutation_in; [apply Permutation_sym|]; eauto.
+Qed.
+
+Theorem extract_order_irrelevant : cidr_merge_spec -> forall ver B st st2 H q count, valid_ver ver = true ->
+  Inv (width ver) B st H -> Permutation st st2 -> q <= width ver ->
+  match extract_subnet ver st q count, extract_subnet ver st2 q count with
+  | Ok (st', s), Ok (st2', s2) => s = s2 /\ forall x, cov (width ver) st' x <-> cov (width ver) st2' x
+  | Raise e, Raise e2 => e = e2
+  | _, _ => False
+  end.
+Proof.
+  intros Hm ver B st st2 H q count Hver I P Hq. pose proof (Inv_perm _ _ _ _ _ P I) as I2.
+  destruct (chosen_dec ver Hver st q) as [None|(c0 & Ch)].
+  - rewrite (extract_none ver st q count (inv_wf _ _ _ _ I) None).
+    rewrite (extract_none ver st2 q count (inv_wf _ _ _ _ I2)).
+    + split; [reflexivity|]. intros x. apply cov_perm, P.
+    + intros c Hc. apply None. eapply Permutation_in; [apply Permutation_sym, P|exact Hc].
+  - pose proof (chosen_perm st st2 q c0 P Ch) as Ch2. set (cnt := req_count count q (snd c0)).
+    destruct (Z_le_dec 1 cnt) as [L1|L1]; [destruct (Z_le_dec cnt (2 ^ (q - snd c0))) as [L2|L2]|].
+    + destruct (extract_ok Hm ver Hver B st H q count c0 I Hq Ch (conj L1 L2)) as (st' & E & _ & _ & _ & _ & C).
+      destruct (extract_ok Hm ver Hver B st2 H q count c0 I2 Hq Ch2 (conj L1 L2)) as (st2' & E2 & _ & _ & _ & _ & C2).
+      rewrite E, E2. split; [reflexivity|]. intros x. rewrite (C x), (C2 x), (cov_perm _ st st2 x P). tauto.
+    + rewrite (extract_bad_count ver Hver B st H q count c0 I Hq Ch) by (fold cnt; lia).
+      rewrite (extract_bad_count ver Hver B st2 H q count c0 I2 Hq Ch2) by (fold cnt; lia). reflexivity.
+    + rewrite (extract_bad_count ver Hver B st H q count c0 I Hq Ch) by (fold cnt; lia).
+      rewrite (extract_bad_count ver Hver B st2 H q count c0 I2 Hq Ch2) by (fold cnt; lia). reflexivity.
+Qed.
+
+(* ---------------------------------------------------------------- the vocabulary, spelled out *)
+Lemma Inv_def w B st H : Inv w B st H <->
+  (forall c, In c st -> wf_cblk w c) /\
+  (forall c, In c st -> hostfree w c \/ c = B) /\
+  NoDup (map snd st) /\
+  (forall a b x, In a st -> In b st -> inc w a x -> inc w b x -> a = b) /\
+  (forall h, In h H -> wf_cblk w h) /\
+  (NoDup H /\ forall a b x, In a H -> In b H -> inc w a x -> inc w b x -> a = b) /\
+  (forall c h x, In c st -> In h H -> inc w c x -> inc w h x -> False) /\
+  (forall x, inc w B x <-> (exists c, In c st /\ inc w c x) \/ (exists h, In h H /\ inc w h x)).
+Proof.
+  split.
+  - intros [I1 I2 I3 I4 I5 I6 I7 I8]. repeat (split; [assumption|]). exact I8.
+  - intros (I1 & I2 & I3 & I4 & I5 & I6 & I7 & I8). constructor; assumption.
+Qed.
+
+Lemma step_ok_def ver B st H o res : step_ok ver B st H o res <->
+  Inv (width ver) B (fst res) (H ++ handed o (snd res)) /\
+  match o, snd res with
+  | SpExtract q _, Ok subnets =>
+      (forall s, In s subnets -> snd s = q /\ wf_cblk (width ver) s /\ hostfree (width ver) s /\
+                 (forall x, inc (width ver) s x -> inc (width ver) B x) /\
+                 (forall h x, In h H -> inc (width ver) h x -> inc (width ver) s x -> False)) /\
+      pw_disjoint (width ver) subnets /\ (subnets = [] -> fst res = st)
+  | SpExtract _ _, Raise e => e = ValueError /\ fst res = st
+  | SpRemove k, Ok s => s = [] /\ exists c, In c st /\ cidr_of (width ver) k = cidr_of (width ver) c /\
+                                            forall x, In x (fst res) <-> In x st /\ x <> c
+  | SpRemove k, Raise e => e = KeyError /\ fst res = st /\ forall c, In c st -> cidr_of (width ver) k <> cidr_of (width ver) c
+  end.
+Proof. reflexivity. Qed.
+
+Lemma vocabulary : forall w c l x o r k q cnt c0 st count p,
+  (inc w c x <-> first_of w c <= x <= last_of w c) /\
+  (first_of w c = fst c - fst c mod 2 ^ (w - snd c)) /\ (last_of w c = first_of w c + 2 ^ (w - snd c) - 1) /\
+  (cidr_of w c = (first_of w c, snd c)) /\
+  (cov w l x <-> exists d, In d l /\ inc w d x) /\
+  (hostfree w c <-> fst c = first_of w c) /\
+  (wf_cblk w c <-> 0 <= fst c < 2 ^ w /\ 0 <= snd c <= w) /\
+  (pw_disjoint w l <-> NoDup l /\ forall a b y, In a l -> In b l -> inc w a y -> inc w b y -> a = b) /\
+  (chosen st q c0 <-> In c0 st /\ snd c0 <= q /\ forall d, In d st -> snd d <= q -> snd d <= snd c0) /\
+  req_count count q p = match count with None => 2 ^ (q - p) | Some n => n end /\
+  subnets_of w c0 q cnt = map (fun i => (first_of w c0 + i * 2 ^ (w - q), q)) (zseq 0 (Z.to_nat cnt)) /\
+  (op_ok k o <-> match o with SpExtract q' _ => q' <= width k | SpRemove n => wf_cblk (width k) n end) /\
+  handed o r = match r with Raise _ => [] | Ok s => match o with SpExtract _ _ => s | SpRemove n => [n] end end.
+Proof. intros. repeat (split; [reflexivity|]). reflexivity. Qed.
